@@ -368,6 +368,7 @@ func checkReserveConsume(p *Prog, r *Report, overhead int64) {
 	// the two helper closures
 	var makeSpace, flushBuffer *types.Var
 	var msLit, fbLit *FuncInfo
+	msArg, msPos := 0, -1
 	fOutput := p.Field("KCP", "output")
 	callsOutput := func(fi *FuncInfo) bool {
 		hit := false
@@ -396,9 +397,32 @@ func checkReserveConsume(p *Prog, r *Report, overhead int64) {
 			return true
 		}
 		v, _ := p.Info.Defs[id].(*types.Var)
-		if lit.Type.Params.NumFields() == 1 {
+		// the reserve helper takes the number of bytes wanted; it may also take the write position and hand it
+		// back (pos = reserve(pos, n)) instead of assigning the captured variable
+		sig, _ := p.Info.TypeOf(lit).(*types.Signature)
+		nInt, nPos, nOther := 0, 0, 0
+		for i := 0; sig != nil && i < sig.Params().Len(); i++ {
+			switch t := sig.Params().At(i).Type(); {
+			case isIntegerType(t):
+				if nInt == 0 {
+					msArg = i
+				}
+				nInt++
+			case isByteSliceLike(t):
+				if nPos == 0 {
+					msPos = i
+				}
+				nPos++
+			default:
+				nOther++
+			}
+		}
+		if nInt == 1 && nPos <= 1 && nOther == 0 {
 			makeSpace, msLit = v, li
-		} else if lit.Type.Params.NumFields() == 0 {
+			if nPos == 0 {
+				msPos = -1
+			}
+		} else if sig != nil && sig.Params().Len() == 0 {
 			flushBuffer, fbLit = v, li
 		}
 		return true
@@ -465,6 +489,41 @@ func checkReserveConsume(p *Prog, r *Report, overhead int64) {
 			}
 		}
 		r.check(ok, "C10.M4", msLit.Name, p.Pos(msLit.Node), "reserve helper outputs iff size + n > mtu", "the only condition of the output call", "the reserve helper does not flush exactly when size + n > mtu: a datagram larger than the mtu (or an empty one) can be handed to the output callback")
+		if msPos >= 0 {
+			// position-passing form: after a flush the helper hands back the start of the buffer, otherwise the
+			// position it was given
+			sig := p.Info.TypeOf(msLit.Node.(*ast.FuncLit)).(*types.Signature)
+			posParam := sig.Params().At(msPos)
+			okRet, nRet := true, 0
+			for _, b := range mc.live {
+				outs := false
+				for _, nd := range b.Nodes {
+					inspectShallow(nd, func(x ast.Node) bool {
+						if call, ok := x.(*ast.CallExpr); ok {
+							if t := p.Term(call.Fun); t.Op == "fld" && t.Obj == fOutput {
+								outs = true
+							}
+						}
+						return true
+					})
+					rs, isRet := nd.(*ast.ReturnStmt)
+					if !isRet {
+						continue
+					}
+					nRet++
+					if len(rs.Results) != 1 {
+						okRet = false
+						continue
+					}
+					id, _ := ast.Unparen(rs.Results[0]).(*ast.Ident)
+					isPos := id != nil && p.Info.ObjectOf(id) == types.Object(posParam)
+					if outs == isPos {
+						okRet = false
+					}
+				}
+			}
+			r.check(okRet && nRet >= 2, "C10.M4", msLit.Name, p.Pos(msLit.Node), "reserve helper hands back the write position", "the given position when nothing was sent, a fresh one after a flush", "the reserve helper does not hand back the start of the buffer after flushing (or hands back something else than the given position otherwise): writing continues at the wrong place")
+		}
 	}
 	{
 		fc := p.CFG(fbLit)
@@ -537,8 +596,23 @@ func checkReserveConsume(p *Prog, r *Report, overhead int64) {
 		}
 		nRes++
 		fs := p.FactsOf(flush).At(pt)
-		reserved := Lin(fs.Resolve(p.Term(call.Args[0])))
-		construct := fmt.Sprintf("makeSpace(%s) #%d", exprString(call.Args[0]), nRes)
+		reserved := Lin(fs.Resolve(p.Term(call.Args[msArg])))
+		construct := fmt.Sprintf("makeSpace(%s) #%d", exprString(call.Args[msArg]), nRes)
+		if msPos >= 0 {
+			// position-passing form: the caller must continue at the position handed back
+			okForm := false
+			if as, isAs := pt.Node().(*ast.AssignStmt); isAs && len(as.Lhs) == 1 && len(as.Rhs) == 1 && ast.Unparen(as.Rhs[0]) == ast.Expr(call) {
+				lid, _ := as.Lhs[0].(*ast.Ident)
+				aid, _ := ast.Unparen(call.Args[msPos]).(*ast.Ident)
+				if lid != nil && aid != nil && p.Info.ObjectOf(lid) == p.Info.ObjectOf(aid) {
+					okForm = true
+				}
+			}
+			if !okForm {
+				r.bad("C10.M4", flush.Name, p.Pos(call), construct, "the position returned by the reserve helper is not the one the caller continues at: after the helper has flushed, writing goes on behind the bytes already sent", "")
+				continue
+			}
+		}
 		// explore paths until the next reserve / drain / exit
 		type st struct {
 			pt   Point
@@ -973,10 +1047,11 @@ func checkSessionAccounting(p *Prog, r *Report) {
 	}
 	// the output path reserves headerSize: Get()[:size+headerSize]
 	get := p.Method("bufferPool", "Get")
+	outCbs := p.outputCallbacks()
 	for _, name := range []string{"newUDPSession", "(*UDPSession).SendOOB"} {
 		found := false
 		for _, s := range p.CallsTo(get) {
-			if rootFuncInfo(s.Fn).Name != name {
+			if rootFuncInfo(s.Fn).Name != name && !(name == "newUDPSession" && outCbs[rootFuncInfo(s.Fn)]) {
 				continue
 			}
 			if se, ok := p.parents[s.Call].(*ast.SliceExpr); ok && se.High != nil {
@@ -1286,4 +1361,32 @@ func (p *Prog) refusesThroughHelper(fi *FuncInfo, c *CFG, spt Point, fRing *type
 		}
 	}
 	return false
+}
+
+// outputCallbacks returns the named functions handed to NewKCP as the output callback inside the package (a
+// function literal is covered by its enclosing function; a method value or a function name is followed here).
+func (p *Prog) outputCallbacks() map[*FuncInfo]bool {
+	out := map[*FuncInfo]bool{}
+	nk := p.FuncByName("NewKCP")
+	if nk == nil {
+		return out
+	}
+	for _, s := range p.CallsTo(nk.Obj) {
+		if len(s.Call.Args) < 2 {
+			continue
+		}
+		var obj types.Object
+		switch x := ast.Unparen(s.Call.Args[1]).(type) {
+		case *ast.SelectorExpr:
+			obj = p.Info.Uses[x.Sel]
+		case *ast.Ident:
+			obj = p.Info.Uses[x]
+		}
+		if fn, ok := obj.(*types.Func); ok {
+			if fi := p.FuncOf(fn); fi != nil {
+				out[fi] = true
+			}
+		}
+	}
+	return out
 }
